@@ -90,7 +90,16 @@ def library_tus():
 
 
 def _cache_dir():
+    """fact cache: under work/ for the repository the checks are registered for; for any other tree (scratch copies made by
+    tools/trypatch.py, tryall.py, seedcheck.py, revertcheck.py) inside that tree, so that it disappears with the copy"""
     d = os.path.join(WORK, 'facts', hashlib.md5(REPO.encode()).hexdigest()[:8])
+    if os.path.realpath(REPO) != '/repo':
+        inside = os.path.join(REPO, '.verif_facts')
+        try:
+            os.makedirs(inside, exist_ok=True)
+            return inside
+        except OSError:
+            pass
     os.makedirs(d, exist_ok=True)
     return d
 
